@@ -16,7 +16,7 @@ LEVEL = "fault_enumeration"
 ASSUMPTIONS = [
     "time is virtual: 1 unit per interpreter step / regex step; the link to seconds rests on the property's "
     "scope clause (every single native operation works on bounded operands)",
-    "a 40-script real-clock subset (T = 0.05 s, bound 3 s) checks that the virtual clock hides no real wait; it is "
+    "a 40-script real-clock subset (T = 0.05 s, bound 10 s) checks that the virtual clock hides no real wait; it is "
     "deliberately loose so that machine load cannot raise an alarm",
     "constructs and places outside the enumerated lists are not explored",
 ]
@@ -213,7 +213,7 @@ def run_deadline(payload):
 
 
 def run_real(payload):
-    """Real-clock smoke: T = 0.05 s; must come back within 3 s with TimeLimitError."""
+    """Real-clock smoke: T = 0.05 s; must come back within 10 s with TimeLimitError (deliberately loose: load-proof)."""
     import time as rt
     from mc.props.common import engine
     e = engine()
@@ -231,7 +231,7 @@ def run_real(payload):
         dt = rt.monotonic() - t0
     finally:
         e.CLOCK.reset("poll")
-    if oc == "time" and dt > 3.0:
+    if oc == "time" and dt > 10.0:
         oc = "time, but after %.1f s" % dt
     return oc + "\x00time"
 
@@ -320,7 +320,7 @@ def spaces(tier, seed, all_strata=False):
             "7 catastrophic regexes (nested quantifier, inside lookahead, inside lookbehind, overlapping alternation, lookahead / "
             "lookbehind / backreference evaluated inside every iteration of a backtracking loop) x "
             "14 regex-consuming entry points x {plain, try/catch}; plus regex objects kept from an earlier eval", "product"),
-        _sp("c01_realclock", "run_real", _real_cases, "real-clock smoke subset, T = 0.05 s, bound 3 s", "40 scripts", batch=3),
+        _sp("c01_realclock", "run_real", _real_cases, "real-clock smoke subset, T = 0.05 s, bound 10 s", "40 scripts", batch=3),
     ]
     strata = []
     for i, T in enumerate([999, 1000, 1001, 7001, 20000]):
